@@ -32,9 +32,13 @@ type vConn struct {
 	partial   int            // a failing write first delivers this many bytes
 	in        []byte         // bytes to be read
 	readStall chan struct{}  // if non-nil, Read blocks on it when `in` is empty (until closed)
+	yield     bool           // every connection call is a scheduling point
 }
 
 func (v *vConn) op() error {
+	if v.yield {
+		verifYield()
+	}
 	v.ops++
 	if v.dead {
 		return vErrConn
